@@ -118,6 +118,18 @@ def shard(part: core.Part, shard_i, nshards, tier, seed, deadline, phase):
             part.count("runs_with_endless_activity_after_horizon")
         for p in problems[:1]:
             part.violation(signature(base, p), f"{pg.pname(base[0])} over {base[1]} {base[2]} (inner policy {base[3]}): {p[2]}", pg.descriptor(base, seed), problems=[x[2] for x in problems])
+        # the subscriber's own terminal callback raises (no on_error handler given, or a throwing handler): the terminal
+        # notification was received all the same, so every source subscription must still be released
+        term = R.rec.terminal()
+        if term is not None and judged:
+            dev = {"rec_fault": (term[2], 1)}
+            R2 = pg.run(base, seed, **dev)
+            problems2, judged2, nontrivial2, outcome2 = judge(base, R2)
+            part.case((base, "terminal-callback-raises"), nontrivial2 and bool(R2.env.injected), outcome=("raise-in-terminal",) + tuple(outcome2))
+            part.count("judged_with_raising_terminal_callback" if judged2 else "not_judged_raising:" + str(outcome2[0]))
+            for p in problems2[:1]:
+                part.violation(signature(base, p) + "|subscriber-terminal-callback-raises", f"{pg.pname(base[0])} over {base[1]} {base[2]} (inner policy {base[3]}), the subscriber's own {('on_error' if term[2] == 'E' else 'on_completed')} raises: {p[2]}",
+                               pg.descriptor(base, seed, **dev), problems=[x[2] for x in problems2])
 
 
 def run(ctx: core.Ctx):
@@ -133,7 +145,7 @@ def run(ctx: core.Ctx):
 
 def replay(case):
     base, seed, dev = pg.from_descriptor(case)
-    R = pg.run(base, seed)
+    R = pg.run(base, seed, **dev)
     print("observed:", pg.show_run(R))
     problems, judged, _, _ = judge(base, R)
     return [{"signature": signature(base, p), "what": p[2], "detail": [x[2] for x in problems]} for p in problems[:1]]
